@@ -275,9 +275,9 @@ def lfo_exhaustive_sweep():
 
     def one(side_script):
         side, sc = side_script
-        rc, out = C.run_side(side, "release", sc.text(), timeout=3000)
+        rc, out = C.run_side(side, "release", sc.text(), timeout=int(os.environ.get("VERIF_SWEEP_TIMEOUT", "9000")))
         if rc == 124 and side == "model":
-            raise C.ModelTimeout("the extracted model did not finish the exhaustive sweep shard %s within 3000 s" % sc.sid)
+            raise C.ModelTimeout("the extracted model did not finish the exhaustive sweep shard %s within its time limit (VERIF_SWEEP_TIMEOUT)" % sc.sid)
         return side, sc.sid, [l for l in out if l.startswith("h=")]
     jobs = [("impl", sc) for sc in shards] + [("model", sc) for sc in shards]
     res = {}
